@@ -1,2 +1,62 @@
-(* C09 -- theorems being added *)
-From HS Require Import Lib.Base.
+(* C09 -- streaming_body (gzip): one valid gzip member; flush makes data decodable.
+   What Coq carries is the transport: whatever byte strings the encoder emits reach the client
+   exactly once and in order through the chunk writer's partial writes (the retry loops of
+   flate2 -- write_header, zio::Writer::dump, the trailer loop -- are std::io::Write::write_all
+   over the chunk writer: `write_all_loop`), a flush leaves nothing behind, the drop publishes the
+   rest and ends the body. The DEFLATE/gzip bit stream itself is flate2/miniz_oxide's: it enters as
+   the stated contract `codec_ok` and is checked on every run by an independent inflater. *)
+From HS Require Import Lib.Base Model.Chunker Proofs.ChunkerP.
+
+(* one emission of the encoder pushed through the chunk writer: all of it is accepted, in order,
+   whatever the chunk size and the fill level; the loop terminates (each write accepts >= 1 byte) *)
+Theorem c09_push_all : forall fuel s d woken, CInv s -> Live s -> (length d <= fuel)%nat ->
+  exists s' wk, write_all_loop fuel bw_write s d woken = (s', true, wk) /\
+    CInv s' /\ Live s' /\ c_reader s' = c_reader s /\ c_cap s' = c_cap s /\
+    pending s' ++ c_buf s' = pending s ++ c_buf s ++ d.
+Proof. exact write_all_live. Qed.
+
+(* a session: emissions e1 .. ek, each pushed (OWriteAll), with flushes and consumer polls
+   anywhere, then the drop: what is delivered, queued and buffered is the concatenation of the
+   emissions *)
+Theorem c09_transport : forall ops s, Good s -> Forall benign ops ->
+  let '(sf, rs) := crun s ops in
+  Good sf /\ pending s ++ c_buf s ++ acc_total ops rs = del_total rs ++ pending sf ++ c_buf sf.
+Proof. exact history_accounting. Qed.
+
+Section Codec.
+  (* the encoder's contract: `member payload stream` = stream is exactly one well-formed gzip
+     member of payload; `decodes_prefix payload stream` = a streaming decoder fed stream has
+     reproduced payload. Abstract: supplied by flate2, checked by the inflater oracle. *)
+  Variable member : bytes -> bytes -> Prop.
+  Variable decodes_prefix : bytes -> bytes -> Prop.
+
+  (* If what the encoder emitted over the session is one gzip member of the payload, then so is
+     the body the client receives: the transport adds, drops and reorders nothing. *)
+  Theorem c09_member : forall ops cap payload, 0 < cap -> Forall benign ops ->
+    let '(sf, rs) := crun (cinit cap) ops in
+    pending sf = [] -> c_buf sf = [] ->
+    member payload (acc_total ops rs) -> member payload (del_total rs).
+  Proof.
+    intros ops cap payload Hcap HB. pose proof (history_accounting ops (cinit cap) (good_init cap Hcap) HB) as H.
+    destruct (crun (cinit cap) ops) as [sf rs]. destruct H as [_ Eq]. intros Hp Hb Hm.
+    cbn [pending cinit c_st c_buf concat app] in Eq. rewrite Hp, Hb, !app_nil_r in Eq. now rewrite <- Eq.
+  Qed.
+
+  (* After a flush (nothing buffered) and a drain (nothing queued) the client holds everything the
+     encoder emitted so far: if that decodes to everything written before the flush, so does
+     what the client holds. *)
+  Theorem c09_flush_decodable : forall ops cap payload, 0 < cap -> Forall benign ops ->
+    let '(sf, rs) := crun (cinit cap) ops in
+    pending sf = [] -> c_buf sf = [] ->
+    decodes_prefix payload (acc_total ops rs) -> decodes_prefix payload (del_total rs).
+  Proof.
+    intros ops cap payload Hcap HB. pose proof (history_accounting ops (cinit cap) (good_init cap Hcap) HB) as H.
+    destruct (crun (cinit cap) ops) as [sf rs]. destruct H as [_ Eq]. intros Hp Hb Hm.
+    cbn [pending cinit c_st c_buf concat app] in Eq. rewrite Hp, Hb, !app_nil_r in Eq. now rewrite <- Eq.
+  Qed.
+End Codec.
+
+Print Assumptions c09_push_all.
+Print Assumptions c09_transport.
+Print Assumptions c09_member.
+Print Assumptions c09_flush_decodable.
